@@ -89,6 +89,40 @@ def cli_status(nerr, workdir):
     return r.returncode
 
 
+# ---------------------------------------------------------------- verdict agreement on small schemas with features the generator lacks
+EXTRA = {
+    'mixed-fixed': ('<xs:schema {XS}><xs:element name="m" fixed="abc"><xs:complexType mixed="true"><xs:sequence><xs:element name="b" minOccurs="0"/></xs:sequence></xs:complexType></xs:element></xs:schema>',
+                    ['<m>abc</m>', '<m> </m>', '<m/>', '<m></m>', '<m>x</m>', '<m><b/></m>', '<m>abc<b/></m>', '<m>\n</m>']),
+    'date-list-enum': ('<xs:schema {XS}><xs:simpleType name="DL"><xs:list itemType="xs:date"/></xs:simpleType><xs:element name="e"><xs:simpleType><xs:restriction base="DL">'
+                       '<xs:enumeration value="2020-01-01 2020-01-02"/></xs:restriction></xs:simpleType></xs:element></xs:schema>', ['<e>2020-01-01 2020-01-02</e>', '<e>2020-01-01</e>', '<e/>']),
+    'decimal-list-enum': ('<xs:schema {XS}><xs:simpleType name="L"><xs:list itemType="xs:decimal"/></xs:simpleType><xs:element name="e"><xs:simpleType><xs:restriction base="L">'
+                          '<xs:enumeration value="1.0 2.50"/></xs:restriction></xs:simpleType></xs:element></xs:schema>', ['<e>1 2.5</e>', '<e>1.0 2.50</e>', '<e>1</e>']),
+    'idref-default': ('<xs:schema {XS}><xs:element name="r"><xs:complexType><xs:sequence><xs:element name="n" maxOccurs="unbounded"><xs:complexType><xs:attribute name="id" type="xs:ID"/>'
+                      '<xs:attribute name="parent" type="xs:IDREF" default="a"/></xs:complexType></xs:element></xs:sequence></xs:complexType></xs:element></xs:schema>',
+                      ['<r><n id="a"/><n id="b"/></r>', '<r><n id="b"/></r>', '<r><n id="b" parent="b"/></r>']),
+    'simple-fixed': ('<xs:schema {XS}><xs:element name="f" type="xs:decimal" fixed="1.0"/></xs:schema>', ['<f>1</f>', '<f/>', '<f> 1.00 </f>', '<f>2</f>', '<f> </f>']),
+}
+XS = 'xmlns:xs="http://www.w3.org/2001/XMLSchema"'
+
+
+def eval_extra(args):
+    name, ver, doc = args
+    import xmlschema
+    from xmlschema.validators.exceptions import XMLSchemaValidationError
+    s = _S.get((name, ver)) or _S.setdefault((name, ver), _cls(ver)(EXTRA[name][0].replace('{XS}', XS)))
+    v = {}
+    try:
+        v['is_valid'] = s.is_valid(doc); v['iter_errors'] = not list(s.iter_errors(doc))
+        try: s.validate(doc); v['validate'] = True
+        except XMLSchemaValidationError: v['validate'] = False
+        v['decode_lax'] = not s.decode(doc, validation='lax')[1]
+        try: s.decode(doc); v['decode_strict'] = True
+        except XMLSchemaValidationError: v['decode_strict'] = False
+        v['package_is_valid'] = xmlschema.is_valid(doc, s)
+    except Exception as e: return dict(name=name, ver=ver, doc=doc, verdicts=v, problem=f'{type(e).__name__}: {str(e)[:80]}')
+    return dict(name=name, ver=ver, doc=doc, verdicts=v, problem='entry points disagree on the verdict') if len(set(v.values())) > 1 else None
+
+
 def run(tier, seed, open_findings):
     rng = random.Random(seed)
     n = 150 if tier == 'thorough' else 40
@@ -115,6 +149,16 @@ def run(tier, seed, open_findings):
         fails = [dict(case=dict(doc=r['doc'], ver=r['ver']), observed=dict(source=r['source'], problem=r['problem'], errors=r.get('lax')), required='all entry points, modes and source kinds agree') for r in res if r]
         out = [result('C04.entry_points_agree', f'{len(docs)} generated documents (0-2 faults) x 2 classes x 12 source kinds (lxml trees included) x 9 entry points', len(jobs) * 12, fails,
                       samples=[dict(doc=docs[1][:200])], distinct=len(set(docs)) * 2)]
+        ejobs = [(nm_, ver, d) for nm_, (_, ds) in EXTRA.items() for d in ds for ver in ('1.0', '1.1')]
+        eres = [eval_extra(j) for j in ejobs]
+        ef = []; ek = {}
+        K = 'C04-list-of-dates-or-decimals-enumeration-decode'
+        for r in eres:
+            if not r: continue
+            if r['name'] in ('date-list-enum', 'decimal-list-enum') and r['problem'].startswith('entry points') and K in open_findings and r['verdicts'].get('is_valid') is True: ek[K] = ek.get(K, 0) + 1; continue
+            ef.append(dict(case=dict(extra=r['name'], ver=r['ver'], doc=r['doc']), observed=dict(verdicts=r['verdicts'], problem=r['problem']), required='one verdict on every entry point'))
+        out.append(result('C04.verdict_agreement_small_schemas', f'{len(ejobs)} (schema, document, class) over {len(EXTRA)} small schemas (mixed content with a fixed value, enumerations on lists of dates / decimals, an IDREF default, a fixed decimal) x 6 entry points',
+                          len(ejobs) * 6, ef, exhaustive=True, known=ek, samples=[dict(extra='mixed-fixed', doc='<m> </m>')]))
         cfail = []
         counts = (0, 1, 255, 256, 257, 512) if tier == 'thorough' else (0, 1, 255, 256, 512)
         for nerr in counts:
@@ -127,6 +171,8 @@ def run(tier, seed, open_findings):
 
 
 def replay(check_name, case):
+    if 'extra' in case:
+        r = eval_extra((case['extra'], case['ver'], case['doc'])); return dict(ok=r is None, observed=r, required='one verdict on every entry point')
     workdir = tempfile.mkdtemp(prefix='verif_c04_')
     try:
         open(os.path.join(workdir, 's.xsd'), 'w').write(docgen.SCHEMA)
